@@ -1155,7 +1155,7 @@ def gen_flat_case(rng, chk):
     lc = [0]
     r = rng.random()
     top = gen_flat_node(rng, m, rng.randint(1, chk.pick(3, 4)), rng.randint(1, chk.pick(6, 9)), lc,
-                        allow_lc="td" if r < 0.15 else r < 0.55)
+                        allow_lc="td" if r < 0.25 else r < 0.6)
     return {"m": m, "top": top, "max_depth": rng.choice([None, None, 0, 1, 2])}
 
 
